@@ -29,6 +29,14 @@ def dispModel (ts : List String) : String :=
     | none => "bad-case"
   | _ => "bad-case"
 
+/-- `loop <hex> ch …` ## `loop pk <n> ret <b> closed <b> conns <k>` -/
+def parseLoopObs : List String → Option LoopObs
+  | ["loop", "pk", n, "ret", r, "closed", cl, "conns", k] => do
+    let n ← n.toNat?
+    let k ← k.toNat?
+    pure ⟨n, r == "1", cl == "1", k⟩
+  | _ => none
+
 def runModel (ts : List String) : String :=
   match ts with
   | "disp" :: rest => dispModel rest
@@ -44,6 +52,10 @@ def holdsDisp (obsToks : List String) : Bool :=
 def runHolds (caseToks obsToks : List String) : String :=
   match caseToks with
   | "disp" :: _ => boolStr (holdsDisp obsToks)
+  | "loop" :: st :: _ =>
+    match bytesOfHex st, parseLoopObs obsToks with
+    | some bs, some o => boolStr (holdsLoop bs o)
+    | _, _ => "false"
   | _ => boolStr (holds (parseObs obsToks))
 
 end Tunnox.Drv.C05
